@@ -6,7 +6,7 @@ CONSTANTS GCs = {"g1", "g2", "g3"}
           ReqFirst = TRUE
           SingleUse = TRUE
           Misuse = TRUE
-INVARIANTS MutualExclusion AtMostOneGC PinBlockedOnlyByGC ReqExact WaitingVisible BlockingVisible ReqNotStuck NoFatal CountersSane
+INVARIANTS MutualExclusion AtMostOneGC NoFatal
 CONSTRAINT TraceConstraint
 POSTCONDITION TracePost
 CHECK_DEADLOCK FALSE
